@@ -1019,6 +1019,26 @@ func main() {
 			}
 		}
 	}
+	// C16: the encode / size functions write the output buffer `b` and their own locals only
+	encFiles := map[string]bool{"append.go": true, "append_list.go": true, "append_list_fast.go": true,
+		"append_map.go": true, "append_map_fast.go": true}
+	var encWrites []string
+	for name, f := range rf {
+		for _, d := range f.Decls {
+			fd, ok := d.(*ast.FuncDecl)
+			if !ok || fd.Body == nil {
+				continue
+			}
+			isSize := fd.Recv != nil && hotMethods[fd.Name.Name]
+			isHelper := name == "utils.go" && strings.HasPrefix(fd.Name.Name, "appendUint")
+			if !(encFiles[name] || isSize || isHelper) || fd.Name.Name == "updateListAppendFunc" || fd.Name.Name == "updateMapAppendFunc" || fd.Name.Name == "init" || fd.Name.Name == "registerListAppendFunc" || fd.Name.Name == "registerMapAppendFunc" {
+				continue
+			}
+			encWrites = append(encWrites, nonLocalWrites(fd)...)
+		}
+	}
+	sort.Strings(encWrites)
+	w("  encodeForeignWriteSites := %d\n  encodeForeignWriteSiteList := [%s]\n", len(encWrites), strings.Join(encWrites, ", "))
 	sort.Strings(descWrites)
 	w("  descriptorWriteSites := %d\n  descriptorWriteSiteList := [%s]\n", len(descWrites), strings.Join(descWrites, ", "))
 	// C18 escape facts
@@ -1229,6 +1249,49 @@ func descriptorWrites(fd *ast.FuncDecl) []string {
 			if x.Op == token.AND {
 				if r, k := chain(x.X); roots[r] && k > 0 && !derives(x) {
 					site("addr", x.X)
+				}
+			}
+		}
+		return true
+	})
+	return out
+}
+
+// nonLocalWrites: statements of fd that can write memory other than the output buffer `b` and the
+// function's own local variables: an assignment / inc-dec whose left-hand side is not a plain
+// identifier or an element of `b`, and an `append` whose first argument is not `b`
+func nonLocalWrites(fd *ast.FuncDecl) []string {
+	var out []string
+	site := func(kind string, e ast.Node) {
+		out = append(out, fmt.Sprintf("\"%s:%s %s\"", fd.Name.Name, kind, strings.Join(strings.Fields(src(e)), " ")))
+	}
+	okLHS := func(e ast.Expr) bool {
+		switch x := e.(type) {
+		case *ast.Ident:
+			return true
+		case *ast.IndexExpr:
+			if id, ok := x.X.(*ast.Ident); ok && id.Name == "b" {
+				return true
+			}
+		}
+		return false
+	}
+	ast.Inspect(fd.Body, func(n ast.Node) bool {
+		switch x := n.(type) {
+		case *ast.AssignStmt:
+			for _, l := range x.Lhs {
+				if !okLHS(l) {
+					site("assign", l)
+				}
+			}
+		case *ast.IncDecStmt:
+			if !okLHS(x.X) {
+				site("incdec", x.X)
+			}
+		case *ast.CallExpr:
+			if id, ok := x.Fun.(*ast.Ident); ok && (id.Name == "append" || id.Name == "copy") && len(x.Args) > 0 {
+				if a, ok := x.Args[0].(*ast.Ident); !ok || a.Name != "b" {
+					site(id.Name, x)
 				}
 			}
 		}
